@@ -643,6 +643,7 @@ func (w *world) event(kind string, n, ts uint64, plan prunePlan) eventResult {
 		within0 = w.cutoff > 0 && ts >= w.cutoffNow()
 		line = fmt.Sprintf("evl2 %d %s", n, b01(within0))
 	}
+	w.hitEventBranch(kind, n, within0)
 	mStart := w.ask(line)
 	prevSituation := w.situation
 	inPrune := strings.HasPrefix(mStart, "started")
@@ -765,6 +766,54 @@ func (w *world) event(kind string, n, ts uint64, plan prunePlan) eventResult {
 		}
 	}
 	return res
+}
+
+// hitEventBranch records which guard / branch of onNewL1Head / onNewBlock the event is aimed at (from the
+// harness' own bookkeeping; evidence that every branch of the floor arithmetic is exercised).
+func (w *world) hitEventBranch(kind string, n uint64, within bool) {
+	r := w.pcfg.Retained
+	switch {
+	case kind == "l1" && w.height < 0:
+		w.res.Hit("branch:l1:no-chain-height")
+	case kind == "l1" && n >= uint64(w.height):
+		w.res.Hit("branch:l1:guard-l1-not-below-head")
+	case kind == "l1" && n < r:
+		w.res.Hit("branch:l1:guard-retained-exceeds-l1")
+	case kind == "l1" && n == r:
+		w.res.Hit("branch:l1:floor-zero")
+	case kind == "l1":
+		w.res.Hit("branch:l1:prune")
+	case w.l1 < 0:
+		w.res.Hit("branch:l2:no-l1-head")
+	case uint64(w.l1) <= n:
+		w.res.Hit("branch:l2:guard-block-not-below-l1")
+	case n < r:
+		w.res.Hit("branch:l2:guard-retained-exceeds-block")
+	default:
+		if w.pcfg.L2PerPrune > 1 {
+			w.res.Hit("branch:l2:coalescing")
+		}
+		switch {
+		case w.cutoff == 0:
+			w.res.Hit("branch:l2:prune-no-min-age")
+		case within:
+			w.res.Hit("branch:l2:prune-time-floor-applied")
+		default:
+			w.res.Hit("branch:l2:prune-time-floor-skipped-deep-catch-up")
+		}
+	}
+	if w.cutoff > 0 && kind == "l1" && n < uint64(max(w.height, 0)) && n >= r {
+		if s := w.procSample; s < n-r {
+			w.res.Hit("branch:min-age-floor-binding")
+		} else {
+			w.res.Hit("branch:min-age-floor-not-binding")
+		}
+	}
+	if r == 0 {
+		w.res.Hit("cfg:retained-0")
+	} else if w.height >= 0 && r > uint64(w.height) {
+		w.res.Hit("cfg:retained-larger-than-chain")
+	}
 }
 
 // fork continues from a crash image taken right after batch write `seq` of the prune in progress:
